@@ -1,7 +1,8 @@
 import AasVerif.Model.FrontEnd
 namespace AasVerif.Drive.C01
 open AasVerif AasVerif.FrontEnd
-/-- `args set|prim <n>` → `ok <indices>` | `crash <i>`;  `load <first failing stage | ->` → `table` | `error <stage>` -/
+/-- `args set|prim <n>` → `ok <indices>` | `crash <i>`;  `load <first failing stage | ->` → `table` | `error <stage>`;
+`loadg` see below -/
 def handle : List String → Option String
   | ["args", which, n] => do
     let n ← n.toNat?
@@ -15,5 +16,15 @@ def handle : List String → Option String
     match load (fun s => !bad.contains s) (fun s => Text.ofString s) Gen.FrontEnd.loadModelStages with
     | .table => some "table"
     | .error m => some ("error " ++ String.ofList (m.map Char.ofNat))
+  | ["loadg", failing, overflowing] =>
+    -- `loadg <failing stages | -> <overflowing stages | ->` → `table` | `error <stage>` | `error too-deep` | `crash`
+    let bad := if failing == "-" then [] else failing.splitOn ","
+    let deep := if overflowing == "-" then [] else overflowing.splitOn ","
+    let res : String → StageOut := fun s => if deep.contains s then .overflow else if bad.contains s then .failed else .ok
+    match loadG (fun s => Gen.FrontEnd.loadModelRecursionGuardedStages.contains s) res (fun s => Text.ofString s)
+        (Text.ofString "too-deep") Gen.FrontEnd.loadModelStages with
+    | .table => some "table"
+    | .error m => some ("error " ++ String.ofList (m.map Char.ofNat))
+    | .crash => some "crash"
   | _ => none
 end AasVerif.Drive.C01
